@@ -35,5 +35,104 @@ theorem Reach.good {S : Sem Val Err Op} (hEq : ∀ a b, S.isEqual a b = true →
   | init => exact good_empty S
   | step _ hadm hstep hb ih => exact good_step hEq ih hadm hstep hb.1 hb.2.1 hb.2.2
 
+/-! ### programs: the vocabulary of the property theorems -/
+
+/-- what the property expects a read of an expression to produce -/
+def expectedRead (S : Sem Val Err Op) (env : PId → Val) (e : Expr Val Op) : Outcome Val Err :=
+  match eval S env e with
+  | .ok v => .read v
+  | .error x => .readErr x
+
+/-- run a program (creations, watches, updates, reads — in any interleaving) -/
+def exec (S : Sem Val Err Op) (fuel : Nat) : World Val Err Op → List (Stmt Val Op) → World Val Err Op
+  | w, [] => w
+  | w, s :: ss => exec S fuel (step S fuel w s).2 ss
+
+/-- hypotheses (H1) and (H3) along a program -/
+def AdmProg (S : Sem Val Err Op) (fuel : Nat) : World Val Err Op → List (Stmt Val Op) → Prop
+  | _, [] => True
+  | w, s :: ss => Admissible w s ∧ Benign (step S fuel w s).1 ∧ AdmProg S fuel (step S fuel w s).2 ss
+
+def Outcome.isInfra : Outcome Val Err → Bool
+  | .fuel => true
+  | .bad => true
+  | _ => false
+
+/-- the program is a program (no dangling reference) and the interpreter had enough fuel -/
+def NoInfra (S : Sem Val Err Op) (fuel : Nat) : World Val Err Op → List (Stmt Val Op) → Bool
+  | _, [] => true
+  | w, s :: ss => !(step S fuel w s).1.isInfra && NoInfra S fuel (step S fuel w s).2 ss
+
+theorem reach_exec {S : Sem Val Err Op} {fuel : Nat} : ∀ (prog : List (Stmt Val Op)) {w : World Val Err Op},
+    Reach S fuel w → AdmProg S fuel w prog → Reach S fuel (exec S fuel w prog)
+  | [], _, h, _ => h
+  | s :: ss, w, h, ⟨a, b, c⟩ => reach_exec ss (Reach.step h a rfl b) c
+
 end
+
+/-! ### boolean checkers for the hypotheses (used by the non-vacuity examples) -/
+
+def argCleanB (s : WStat (Option Int) Nat) : Arg (Option Int) → Bool
+  | .node m => match s.nodes[m]? with | some md => !md.isW | none => false
+  | _ => true
+
+theorem argCleanB_sound {s : WStat (Option Int) Nat} {a : Arg (Option Int)} (h : argCleanB s a = true) :
+    ArgClean s a := by
+  intro m hm; subst hm
+  simp only [argCleanB] at h
+  cases hn : s.nodes[m]? with
+  | none => simp [hn] at h
+  | some md => exact ⟨md, rfl, by simpa [hn] using h⟩
+
+def admB (w : World (Option Int) Unit Nat) : Stmt (Option Int) Nat → Bool
+  | .op _ _ _ args => args.all (argCleanB w.stat)
+  | .meth _ _ args => args.all (argCleanB w.stat)
+  | .bind _ args => args.all (argCleanB w.stat)
+  | .where_ c x y => argCleanB w.stat c && argCleanB w.stat x && argCleanB w.stat y
+  | .watch n => match w.nodes[n]? with | some nd => !nd.toNStat.isW | none => true
+  | _ => true
+
+theorem admB_sound {w : World (Option Int) Unit Nat} {s : Stmt (Option Int) Nat} (h : admB w s = true) :
+    Admissible w s := by
+  cases s with
+  | op n o r args => exact fun a ha => argCleanB_sound (List.all_eq_true.1 h a ha)
+  | meth n o args => exact fun a ha => argCleanB_sound (List.all_eq_true.1 h a ha)
+  | bind g args => exact fun a ha => argCleanB_sound (List.all_eq_true.1 h a ha)
+  | where_ c x y =>
+    simp only [admB, Bool.and_eq_true] at h
+    exact ⟨argCleanB_sound h.1.1, argCleanB_sound h.1.2, argCleanB_sound h.2⟩
+  | watch n =>
+    intro nd hn
+    simp only [admB, hn] at h
+    simpa using h
+  | lit _ => trivial
+  | obj _ => trivial
+  | rootp _ => trivial
+  | set _ _ => trivial
+  | read _ => trivial
+
+def benignB : Outcome (Option Int) Unit → Bool
+  | .fuel => false
+  | .bad => false
+  | .set _ (some _) => false
+  | _ => true
+
+theorem benignB_sound {o : Outcome (Option Int) Unit} (h : benignB o = true) : Benign o := by
+  cases o with
+  | set calls e => cases e <;> simp_all [benignB, Benign]
+  | _ => simp_all [benignB, Benign]
+
+def admProgB (S : Sem (Option Int) Unit Nat) (fuel : Nat) :
+    World (Option Int) Unit Nat → List (Stmt (Option Int) Nat) → Bool
+  | _, [] => true
+  | w, s :: ss => admB w s && benignB (step S fuel w s).1 && admProgB S fuel (step S fuel w s).2 ss
+
+theorem admProgB_sound (S : Sem (Option Int) Unit Nat) (fuel : Nat) :
+    ∀ (prog : List (Stmt (Option Int) Nat)) (w : World (Option Int) Unit Nat),
+      admProgB S fuel w prog = true → AdmProg S fuel w prog
+  | [], _, _ => trivial
+  | s :: ss, w, h => by
+    simp only [admProgB, Bool.and_eq_true] at h
+    exact ⟨admB_sound h.1.1, benignB_sound h.1.2, admProgB_sound S fuel ss _ h.2⟩
+
 end ParamVerif.Rx
